@@ -5,6 +5,8 @@ import (
 	"context"
 	"fmt"
 	"io"
+	"net/http"
+	"reflect"
 	"strings"
 	"sync"
 	"testing"
@@ -688,5 +690,52 @@ func TestC14Interleaved(t *testing.T) {
 		if fail != "" {
 			rt.Fatalf("C14 interleaved %+v: %s", sides, fail)
 		}
+	})
+}
+
+// TestC14SharedHeader: an application that keeps one http.Header for all its
+// Dials. What each Dial offers is decided by its own CompressionMode alone: the
+// offers of earlier Dials must not ride along in the caller's header map, or a
+// client with compression disabled ends up negotiating (or failing on) an
+// extension it never meant to offer.
+func TestC14SharedHeader(t *testing.T) {
+	rec := evid.For("C14")
+	rapid.Check(t, func(rt *rapid.T) {
+		hdr := http.Header{}
+		if rapid.Bool().Draw(rt, "customHeader") {
+			hdr.Set("X-App", "1")
+		}
+		n := rapid.IntRange(2, 5).Draw(rt, "nDials")
+		shape := ""
+		for i := 0; i < n; i++ {
+			mode := rapid.SampledFrom(c01Modes).Draw(rt, "mode")
+			shape += modeName(mode) + ">"
+			// the scripted server agrees to whatever is on the wire, as a compression-enabled server does
+			before := hdr.Clone()
+			cl, err := wsx.Dial(context.Background(), wsx.ClientCfg{Mode: mode, Header: hdr, RespExt: ""})
+			if cl.Conn != nil {
+				cl.Conn.CloseNow()
+			}
+			cl.Peer.Close()
+			if err != nil {
+				rt.Fatalf("C14 shared header: dial %d (%s after %s) failed: %v", i, modeName(mode), shape, err)
+			}
+			exts := ref.ParseExtensions(cl.Req.Header.Values("Sec-WebSocket-Extensions"))
+			switch {
+			case mode == websocket.CompressionDisabled && len(exts) != 0:
+				rt.Fatalf("C14 shared header: dial %d has compression disabled but offers %v on the wire (history: %s)", i, exts, shape)
+			case mode != websocket.CompressionDisabled && (len(exts) != 1 || exts[0].Name != "permessage-deflate"):
+				rt.Fatalf("C14 shared header: dial %d (%s) offers %v (history: %s)", i, modeName(mode), exts, shape)
+			case mode != websocket.CompressionDisabled:
+				j := ref.JudgeOffer(exts[0])
+				if want := mode == websocket.CompressionNoContextTakeover; !j.Honourable || j.ClientNoCtx != want || j.ServerNoCtx != want {
+					rt.Fatalf("C14 shared header: dial %d (%s) offers %v (history: %s)", i, modeName(mode), exts, shape)
+				}
+			}
+			if !reflect.DeepEqual(hdr, before) {
+				rt.Fatalf("C14 shared header: dial %d (%s) changed the caller's header map: %v -> %v", i, modeName(mode), before, hdr)
+			}
+		}
+		rec.Case(true, "shared-header|"+shape, "dials-sharing-one-header-map")
 	})
 }
